@@ -668,7 +668,7 @@ fn family_of(fmt: &str) -> &'static str {
 // ------------------------------------------------------------------------------------------------
 // URL grammar
 
-const FEATURES: &[&str] = &["query-amp", "fragment", "pct", "lit-amp-entity", "lt", "gt", "dquote", "squote", "unicode", "long2k", "ipv6", "lit-charref", "userinfo-port"];
+const FEATURES: &[&str] = &["query-amp", "fragment", "pct", "lit-amp-entity", "lt", "gt", "dquote", "squote", "unicode", "long2k", "ipv6", "lit-charref", "userinfo-port", "squote-path", "frag-special"];
 
 fn build_url(features: &BTreeSet<&'static str>, rng: &mut Rng) -> String {
     let host = if features.contains("ipv6") {
@@ -681,6 +681,9 @@ fn build_url(features: &BTreeSet<&'static str>, rng: &mut Rng) -> String {
     let mut path = format!("/m/{}.c2pa", rng.ascii_lower(6));
     if features.contains("pct") {
         path.push_str("/a%20b%2Fc%C3%A9%26");
+    }
+    if features.contains("squote-path") {
+        path.push_str("/it's");
     }
     if features.contains("unicode") {
         path.push_str("/caf\u{e9}-\u{65e5}\u{672c}-\u{1F600}");
@@ -701,7 +704,7 @@ fn build_url(features: &BTreeSet<&'static str>, rng: &mut Rng) -> String {
         q.push("e=x&amp;y".into());
     }
     if features.contains("lit-charref") {
-        q.push("r=&#38;&lt;".into());
+        q.push("r=&lt;&quot;".into());
     }
     if features.contains("lt") {
         q.push("lt=1<2".into());
@@ -720,8 +723,19 @@ fn build_url(features: &BTreeSet<&'static str>, rng: &mut Rng) -> String {
         u.push('?');
         u.push_str(&q.join("&"));
     }
+    let mut frag: Vec<&str> = Vec::new();
     if features.contains("fragment") {
-        u.push_str("#frag-1");
+        frag.push("frag-1");
+    }
+    if features.contains("lit-charref") {
+        frag.push("&#38;&#x26;");
+    }
+    if features.contains("frag-special") {
+        frag.push("a&b'c");
+    }
+    if !frag.is_empty() {
+        u.push('#');
+        u.push_str(&frag.join("/"));
     }
     u
 }
@@ -860,7 +874,6 @@ fn run_case(c: &Case) -> Res {
 
     // ---- write side, independent
     let out_packets = find_packets(c.family, &out);
-    let mut write_ok = false;
     let mut out_props = Vec::new();
     let mut out_parse_err = None;
     match props_of_packets(&out_packets) {
@@ -868,22 +881,34 @@ fn run_case(c: &Case) -> Res {
         Err(e) => out_parse_err = Some(e),
     }
     let provs: Vec<&(String, String, &'static str)> = out_props.iter().filter(|p| p.0 == prov_name).collect();
+    // `embedded` = the reference actually present in the output bytes (independent parse)
+    let mut embedded: Option<String> = None;
+    let mut spelling = "n/a";
+    let same_url = |a: &str, b: &str| -> bool { matches!((url::Url::parse(a), url::Url::parse(b)), (Ok(x), Ok(y)) if x == y) };
     if let Some(e) = &out_parse_err {
         viol(&mut res, c.family, "output-packet-illformed", c.shape, format!("the XMP packet in the output is not (namespace-)well-formed: {e}"), json!({"packets": out_packets}));
-    } else if provs.iter().any(|p| p.1 == c.url) {
-        write_ok = true;
-        if provs.len() > 1 {
-            res.counters.push((format!("out_packet_has_{}_provenance_properties:{}", provs.len(), c.shape), 1));
-            if provs.iter().any(|p| p.1 != c.url) {
-                res.unjudged.push(format!("stale-second-provenance:{}", c.shape));
-            }
-        }
     } else if provs.is_empty() {
         viol(&mut res, c.family, "write-missing", c.shape, format!("signing succeeded but no dcterms:provenance property is in the output XMP ({} packet(s) found)", out_packets.len()), json!({"packets": out_packets}));
     } else {
-        let got: Vec<&String> = provs.iter().map(|p| &p.1).collect();
-        viol(&mut res, c.family, "write-mismatch", &chars, format!("dcterms:provenance written as {:?}, expected {:?}", got, c.url), json!({"packets": out_packets}));
+        if let Some(p) = provs.iter().find(|p| p.1 == c.url) {
+            embedded = Some(p.1.clone());
+            spelling = "verbatim";
+        } else if let Some(p) = provs.iter().find(|p| same_url(&p.1, &c.url)) {
+            // the builder stores the WHATWG serialisation of the URL: same URL, other spelling
+            embedded = Some(p.1.clone());
+            spelling = "normalised";
+        } else {
+            let got: Vec<&String> = provs.iter().map(|p| &p.1).collect();
+            viol(&mut res, c.family, "write-mismatch", &chars, format!("dcterms:provenance written as {:?}, which is not the URL {:?}", got, c.url), json!({"packets": out_packets}));
+        }
+        if provs.len() > 1 {
+            res.counters.push((format!("out_packet_has_{}_provenance_properties:{}", provs.len(), c.shape), 1));
+            if provs.iter().any(|p| Some(&p.1) != embedded.as_ref()) {
+                res.unjudged.push(format!("stale-second-provenance:{}", c.shape));
+            }
+        }
     }
+    let write_ok = embedded.is_some();
     res.counters.push((format!("out_packets:{}", out_packets.len().min(3)), 1));
 
     // ---- preservation
@@ -953,9 +978,10 @@ fn run_case(c: &Case) -> Res {
     }
     if !subject.is_empty() {
         match read_back(c.fmt, &subject) {
-            ReadBack::RemoteUrl(u2) if u2 == c.url => outcome = "url-equal".into(),
+            ReadBack::RemoteUrl(u2) if Some(&u2) == embedded.as_ref() => outcome = format!("url-equal-{spelling}"),
+            ReadBack::RemoteUrl(u2) if embedded.is_none() && u2 == c.url => outcome = "url-equal-but-packet-unjudged".into(),
             ReadBack::RemoteUrl(u2) => {
-                let escaped_form = xml_unescape(&u2, true).map(|x| x == c.url).unwrap_or(false);
+                let escaped_form = xml_unescape(&u2, true).map(|x| Some(&x) == embedded.as_ref()).unwrap_or(false);
                 if escaped_form && write_ok {
                     outcome = "url-xml-escaped".into();
                     // shared extraction code returns the raw (escaped) attribute text: one cause for all formats
@@ -964,12 +990,12 @@ fn run_case(c: &Case) -> Res {
                         "any-fmt",
                         "read-not-unescaped",
                         "xml-special",
-                        format!("embedded {:?}, reader returned {:?} (the XML-escaped spelling)", c.url, u2),
+                        format!("embedded {:?}, reader returned {:?} (the XML-escaped spelling)", embedded.as_deref().unwrap_or(""), u2),
                         json!({"returned": u2, "family": c.family, "chars": chars}),
                     );
                 } else {
                     outcome = "url-differs".into();
-                    viol(&mut res, c.family, "read-mismatch", &format!("{}|{}", c.shape, chars), format!("embedded {:?}, reader returned {:?} (written correctly: {write_ok})", c.url, u2), json!({"returned": u2, "out_packets": out_packets}));
+                    viol(&mut res, c.family, "read-mismatch", &format!("{}|{}", c.shape, chars), format!("signed with {:?}, embedded {:?}, reader returned {:?}", c.url, embedded, u2), json!({"returned": u2, "out_packets": out_packets}));
                 }
             }
             ReadBack::OtherErr(e) => {
@@ -1116,6 +1142,18 @@ fn main() {
         std::process::exit(if r.violations.is_empty() { 0 } else { 1 });
     }
 
+    if let Ok(f) = std::env::var("C30_PROBE") {
+        for c in cases.iter().filter(|c| format!("{}|{}|{}|{}|{}", c.family, c.shape, c.asset_name, c.feats.join("+"), if c.embed { "embed" } else { "remote-only" }).contains(&f)) {
+            let r = run_case(c);
+            println!("--- {}|{}|{}|{:?}|embed={} url={}", c.family, c.shape, c.asset_name, c.feats, c.embed, c.url);
+            println!("    class={:?} trivial={:?} unjudged={:?}", r.class, r.trivial, r.unjudged);
+            for (sig, what, extra) in &r.violations {
+                let e = extra.to_string();
+                println!("    VIOL {sig} :: {what}\n         {}", &e[..e.len().min(3000)]);
+            }
+        }
+        return;
+    }
     let results = par::par_map_watch(cases.len(), 300, |i| eprintln!("INCONCLUSIVE: case {i} stalled"), |i| run_case(&cases[i]));
     let mut unjudged: BTreeMap<String, u64> = BTreeMap::new();
     let mut matrix: BTreeMap<String, BTreeSet<String>> = BTreeMap::new();
